@@ -20,6 +20,7 @@ import Driver.Snapshots
 import Driver.Synthetic
 import Driver.Tools
 import Driver.SetStage
+import Driver.X86Dump
 open Driver
 
 def main (args : List String) : IO UInt32 := do
@@ -82,6 +83,9 @@ def main (args : List String) : IO UInt32 := do
     return 0
   | ["linuxparse"] =>
     lineLoop stdin stdout () LinuxParseEng.step
+    return 0
+  | ["x86dump"] =>
+    lineLoop stdin stdout () X86DumpEng.step
     return 0
   | ["snapshots"] =>
     lineLoop stdin stdout ({} : SnapshotsEng.St) SnapshotsEng.step
